@@ -18,7 +18,7 @@ use std::sync::LazyLock;
 use surf_n_term::render::{CellKind, TerminalRenderer};
 use surf_n_term::{
     BBox, Cell, Face, FillRule, Glyph, Image, Path, Position, RGBA, Size, Surface, SurfaceMut,
-    SurfaceOwned, TerminalCommand, TerminalSize,
+    SurfaceOwned, Terminal, TerminalCaps, TerminalCommand, TerminalSize,
 };
 use unicode_width::UnicodeWidthChar;
 
@@ -55,7 +55,21 @@ fn mk_image(rows: usize, cols: usize, seed: u8) -> Image {
 
 static POOLS: LazyLock<Pools> = LazyLock::new(|| Pools {
     // sizes in cells: 1x1, 2x2, 1x3 ; the same Arc is reused across frames
-    images: vec![mk_image(1, 1, 10), mk_image(2, 2, 20), mk_image(1, 3, 30)],
+    // 3..=6 are windows into one backing picture: equal sizes at different offsets (a viewport
+    // panned over a picture) -- same buffer, same size, different pixels
+    images: {
+        let backing = mk_image(2, 4, 40);
+        let (ph, pw) = (PPC.height, PPC.width);
+        vec![
+            mk_image(1, 1, 10),
+            mk_image(2, 2, 20),
+            mk_image(1, 3, 30),
+            backing.crop(.., 0..2 * pw),
+            backing.crop(.., 2 * pw..4 * pw),
+            backing.crop(0..ph, 0..pw),
+            backing.crop(ph..2 * ph, 3 * pw..4 * pw),
+        ]
+    },
     glyphs: vec![
         Glyph::new(Path::empty(), FillRule::default(), Some(BBox::new((0.0, 0.0), (1.0, 1.0))), Size::new(1, 2), "g".to_string(), None),
         Glyph::new(Path::empty(), FillRule::default(), Some(BBox::new((0.0, 0.0), (1.0, 1.0))), Size::new(2, 1), "h".to_string(), None),
@@ -108,6 +122,22 @@ pub struct Case {
     pub height: u8,
     pub width: u8,
     pub ops: Vec<Op>,
+    /// when present the history is driven through `Terminal::run_render` instead (`ops` unused)
+    #[serde(default)]
+    pub render_loop: Option<RenderLoop>,
+}
+
+/// A session of the library's own render loop on a terminal whose output queue is scripted
+#[derive(Clone, Debug, Serialize, Deserialize)]
+pub struct RenderLoop {
+    /// what the handler paints at each invocation; after the last one it quits
+    pub frames: Vec<Vec<Put>>,
+    /// invocations (index modulo the number of frames) that answer `WaitNoFrame`
+    pub no_frame: Vec<u8>,
+    /// the terminal accepts nothing during polls `stall.0 .. stall.0 + stall.1`
+    pub stall: (u8, u8),
+    /// outside the stall: number of queued frames the terminal accepts per poll (cyclic)
+    pub deliver: Vec<u8>,
 }
 
 // ---- reference screen -------------------------------------------------------------------
@@ -429,7 +459,77 @@ fn classify_mismatch(model: &Shown, want: &Shown, dropped_before: bool) -> &'sta
     }
 }
 
+/// Oracles (1) and (2) for one delivered frame: the reference screen against the display the
+/// surface denotes, and against a from-scratch repaint of the same surface.
+#[allow(clippy::too_many_arguments)]
+fn check_display(
+    screen: &Screen,
+    snap: &[Cell],
+    h: usize,
+    w: usize,
+    tsize: TerminalSize,
+    dropped_before: bool,
+    ctx: &str,
+    cmds: &[TerminalCommand],
+) -> Result<Expected, Fail> {
+    let exp = expected_of(snap, h, w, tsize);
+    let model = screen.display();
+    // (1) ground truth
+    for (i, (m, e)) in model.iter().zip(exp.shown.iter()).enumerate() {
+        if exp.dont_care[i] {
+            continue;
+        }
+        if m != e {
+            let class = classify_mismatch(m, e, dropped_before);
+            return Err(Fail::new(
+                format!("display/{class}"),
+                format!(
+                    "{ctx}: cell ({},{}) of the {h}x{w} terminal shows {} but the surface has {}; commands of this frame: {:?}",
+                    i / w.max(1), i % w.max(1), show(m), show(e), cmds
+                ),
+            ));
+        }
+    }
+    // (2) differential: brand-new renderer, blank terminal, same surface
+    let mut term2 = RecTerm::new(Size::new(h, w), PPC, true);
+    let mut fresh = TerminalRenderer::new(&mut term2, false)
+        .map_err(|e| Fail::new("renderer/new-error", format!("{e:?}")))?;
+    {
+        let mut s2 = fresh.surface();
+        for (dst, src) in s2.iter_mut().zip(snap.iter()) {
+            *dst = src.clone();
+        }
+    }
+    guard_val(|| fresh.frame(&mut term2))?
+        .map_err(|e| Fail::new("renderer/frame-error", format!("{e:?}")))?;
+    let mut blank = Screen::new(h, w);
+    for cmd in term2.take() {
+        blank.apply(&cmd);
+    }
+    let scratch = blank.display();
+    for (i, (m, s)) in model.iter().zip(scratch.iter()).enumerate() {
+        if m != s {
+            let class = if exp.dont_care[i] {
+                "wide-char-partly-under-image"
+            } else {
+                classify_mismatch(m, s, dropped_before)
+            };
+            return Err(Fail::new(
+                format!("differential/{class}"),
+                format!(
+                    "{ctx}: cell ({},{}) shows {} but repainting the same surface from scratch on a blank terminal gives {}; commands of this frame: {:?}",
+                    i / w.max(1), i % w.max(1), show(m), show(s), cmds
+                ),
+            ));
+        }
+    }
+    Ok(exp)
+}
+
 pub fn run_case(case: &Case) -> Outcome {
+    if let Some(rl) = &case.render_loop {
+        return run_loop_case(case.height as usize, case.width as usize, rl);
+    }
     let (mut h, mut w) = (case.height as usize, case.width as usize);
     let mut term = RecTerm::new(Size::new(h, w), PPC, true);
     let mut screen = Screen::new(h, w);
@@ -519,58 +619,7 @@ pub fn run_case(case: &Case) -> Outcome {
                 if let Some((sig, msg)) = screen.problems.first() {
                     return Err(Fail::new(sig.clone(), format!("step {step}: {msg}; commands {:?}", cmds)));
                 }
-                let tsize = term.size;
-                let exp = expected_of(&snap, h, w, tsize);
-                let model = screen.display();
-                // (1) ground truth
-                for (i, (m, e)) in model.iter().zip(exp.shown.iter()).enumerate() {
-                    if exp.dont_care[i] {
-                        continue;
-                    }
-                    if m != e {
-                        let class = classify_mismatch(m, e, dropped_before);
-                        return Err(Fail::new(
-                            format!("display/{class}"),
-                            format!(
-                                "step {step} (frame #{}): cell ({},{}) of the {h}x{w} terminal shows {} but the surface has {}; commands of this frame: {:?}",
-                                run.frames, i / w.max(1), i % w.max(1), show(m), show(e), cmds
-                            ),
-                        ));
-                    }
-                }
-                // (2) differential: brand-new renderer, blank terminal, same surface
-                let mut term2 = RecTerm::new(Size::new(h, w), PPC, true);
-                let mut fresh = TerminalRenderer::new(&mut term2, false)
-                    .map_err(|e| Fail::new("renderer/new-error", format!("{e:?}")))?;
-                {
-                    let mut s2 = fresh.surface();
-                    for (dst, src) in s2.iter_mut().zip(snap.iter()) {
-                        *dst = src.clone();
-                    }
-                }
-                guard_val(|| fresh.frame(&mut term2))?
-                    .map_err(|e| Fail::new("renderer/frame-error", format!("{e:?}")))?;
-                let mut blank = Screen::new(h, w);
-                for cmd in term2.take() {
-                    blank.apply(&cmd);
-                }
-                let scratch = blank.display();
-                for (i, (m, s)) in model.iter().zip(scratch.iter()).enumerate() {
-                    if m != s {
-                        let class = if exp.dont_care[i] {
-                            "wide-char-partly-under-image"
-                        } else {
-                            classify_mismatch(m, s, dropped_before)
-                        };
-                        return Err(Fail::new(
-                            format!("differential/{class}"),
-                            format!(
-                                "step {step} (frame #{}): cell ({},{}) shows {} but repainting the same surface from scratch on a blank terminal gives {}; commands of this frame: {:?}",
-                                run.frames, i / w.max(1), i % w.max(1), show(m), show(s), cmds
-                            ),
-                        ));
-                    }
-                }
+                let exp = check_display(&screen, &snap, h, w, term.size, dropped_before, &format!("step {step} (frame #{})", run.frames), &cmds)?;
                 // labels
                 if let Some(prev) = &prev_snapshot {
                     if prev.len() == snap.len() {
@@ -619,13 +668,213 @@ pub fn run_case(case: &Case) -> Outcome {
     Ok(pass)
 }
 
+// ---- the library's render loop on a scripted terminal -------------------------------------
+
+/// Terminal whose output queue is owned by the harness: every poll closes the chunk being
+/// written (as the real terminal's poll flushes) and hands a scripted number of queued chunks
+/// to the screen; `frames_drop` keeps the chunk in flight and discards the others, as
+/// `IOQueue::clear_but_last` does.
+struct LoopTerm {
+    size: TerminalSize,
+    caps: TerminalCaps,
+    open: Vec<TerminalCommand>,
+    /// (frame index, rendered after a frame drop, commands)
+    queue: std::collections::VecDeque<(usize, bool, Vec<TerminalCommand>)>,
+    delivered: Vec<(usize, bool, Vec<TerminalCommand>)>,
+    tag: usize,
+    polls: usize,
+    drops: usize,
+    max_pending: usize,
+    stall: (usize, usize),
+    deliver: Vec<u8>,
+}
+
+impl LoopTerm {
+    fn close_chunk(&mut self) {
+        if !self.open.is_empty() {
+            let cmds = std::mem::take(&mut self.open);
+            self.queue.push_back((self.tag, self.drops > 0, cmds));
+        }
+    }
+    fn accept(&mut self, n: usize) {
+        for _ in 0..n {
+            match self.queue.pop_front() {
+                Some(chunk) => self.delivered.push(chunk),
+                None => break,
+            }
+        }
+    }
+}
+
+impl std::io::Write for LoopTerm {
+    fn write(&mut self, buf: &[u8]) -> std::io::Result<usize> {
+        Ok(buf.len())
+    }
+    fn flush(&mut self) -> std::io::Result<()> {
+        self.close_chunk();
+        Ok(())
+    }
+}
+
+impl Terminal for LoopTerm {
+    fn execute(&mut self, cmd: TerminalCommand) -> Result<(), surf_n_term::Error> {
+        self.open.push(cmd);
+        Ok(())
+    }
+    fn waker(&self) -> surf_n_term::TerminalWaker {
+        surf_n_term::TerminalWaker::new(|| Ok(()))
+    }
+    fn poll(&mut self, _timeout: Option<std::time::Duration>) -> Result<Option<surf_n_term::TerminalEvent>, surf_n_term::Error> {
+        self.close_chunk();
+        let stalled = self.polls >= self.stall.0 && self.polls < self.stall.0 + self.stall.1;
+        if !stalled {
+            let n = if self.deliver.is_empty() { 1 } else { self.deliver[self.polls % self.deliver.len()] as usize };
+            self.accept(n);
+        }
+        self.polls += 1;
+        Ok(None)
+    }
+    fn dyn_ref(&mut self) -> &mut dyn Terminal {
+        self
+    }
+    fn size(&self) -> Result<TerminalSize, surf_n_term::Error> {
+        Ok(self.size)
+    }
+    fn position(&mut self) -> Result<Position, surf_n_term::Error> {
+        Ok(Position::origin())
+    }
+    fn frames_pending(&self) -> usize {
+        // queued chunks plus the trailing one being written
+        self.queue.len() + 1
+    }
+    fn frames_drop(&mut self) {
+        self.drops += 1;
+        self.queue.truncate(1);
+        self.open.clear();
+    }
+    fn capabilities(&self) -> &TerminalCaps {
+        &self.caps
+    }
+}
+
+fn run_loop_case(h: usize, w: usize, rl: &RenderLoop) -> Outcome {
+    use surf_n_term::TerminalAction;
+    let cells = Size::new(h, w);
+    let mut term = LoopTerm {
+        size: TerminalSize { cells, pixels: Size::new(h * PPC.height, w * PPC.width) },
+        caps: TerminalCaps { depth: surf_n_term::encoder::ColorDepth::TrueColor, glyphs: true, kitty_keyboard: false },
+        open: Vec::new(),
+        queue: Default::default(),
+        delivered: Vec::new(),
+        tag: 0,
+        polls: 0,
+        drops: 0,
+        max_pending: 0,
+        stall: (rl.stall.0 as usize, rl.stall.1 as usize),
+        deliver: rl.deliver.clone(),
+    };
+    let n = rl.frames.len();
+    let skip: BTreeSet<usize> = if n == 0 { BTreeSet::new() } else { rl.no_frame.iter().map(|i| *i as usize % n).collect() };
+    // what the application drew at each invocation (None = no frame requested)
+    let mut drawn: Vec<Option<Vec<Cell>>> = Vec::new();
+    let mut step = 0usize;
+    let result = guard_val(|| {
+        term.run_render(|term, _event, mut view| -> Result<TerminalAction<()>, surf_n_term::Error> {
+            term.max_pending = term.max_pending.max(term.frames_pending());
+            if step >= n {
+                // last invocation: an empty frame, then quit
+                term.tag = step;
+                drawn.push(Some(snapshot(&view)));
+                step += 1;
+                return Ok(TerminalAction::Quit(()));
+            }
+            term.tag = step;
+            let action = if skip.contains(&step) {
+                drawn.push(None);
+                // TerminalAction::WaitNoFrame would make the next poll wait for ever on a real
+                // terminal; on the scripted one a poll never blocks
+                TerminalAction::WaitNoFrame
+            } else {
+                paint(&mut view, &rl.frames[step], h, w);
+                drawn.push(Some(snapshot(&view)));
+                TerminalAction::Sleep(std::time::Duration::ZERO)
+            };
+            step += 1;
+            Ok(action)
+        })
+    })?;
+    result.map_err(|e| Fail::new("loop/run-render-error", format!("{e:?}")))?;
+    // the terminal catches up
+    term.close_chunk();
+    let rest = term.queue.len();
+    term.accept(rest);
+
+    let mut screen = Screen::new(h, w);
+    let mut labels: BTreeSet<&'static str> = BTreeSet::new();
+    let mut frames = 0usize;
+    let mut last_tag = None;
+    for (tag, after_drop, cmds) in &term.delivered {
+        let cmds: Vec<TerminalCommand> = cmds
+            .iter()
+            .filter(|c| !matches!(c, TerminalCommand::DecModeSet { mode: surf_n_term::DecMode::SynchronizedOutput, .. }))
+            .cloned()
+            .collect();
+        for cmd in &cmds {
+            screen.apply(cmd);
+        }
+        if let Some((sig, msg)) = screen.problems.first() {
+            return Err(Fail::new(sig.clone(), format!("render loop, frame of invocation {tag}: {msg}; commands {:?}", cmds)));
+        }
+        let Some(Some(snap)) = drawn.get(*tag) else {
+            return Err(Fail::new(
+                "loop/frame-without-drawing",
+                format!("a frame was rendered for invocation {tag} although the handler asked for no frame; commands {:?}", cmds),
+            ));
+        };
+        frames += 1;
+        last_tag = Some(*tag);
+        check_display(
+            &screen,
+            snap,
+            h,
+            w,
+            term.size,
+            *after_drop,
+            &format!("render loop, frame of handler invocation {tag} (delivered as #{frames}; {} frame drops before it)", if *after_drop { "one or more" } else { "no" }),
+            &cmds,
+        )?;
+        if *after_drop {
+            labels.insert("loop:frame-delivered-after-a-drop");
+        }
+    }
+    // the frame of the last invocation was rendered after any drop, so it has been delivered
+    let last_drawn = drawn.iter().rposition(|d| d.is_some());
+    ensure!(
+        last_tag == last_drawn,
+        "loop/last-frame-missing",
+        "the last frame delivered is that of invocation {:?} but the last one drawn was {:?}",
+        last_tag,
+        last_drawn
+    );
+    let dropped = term.drops > 0;
+    let mut pass = Pass::new(dropped && labels.contains("loop:frame-delivered-after-a-drop"))
+        .label("render-loop")
+        .label_if(dropped, "loop:frames-dropped")
+        .label_if(!skip.is_empty(), "loop:no-frame-invocations")
+        .label_if(frames >= 2, "frames>=2");
+    for l in labels {
+        pass = pass.label(l);
+    }
+    Ok(pass)
+}
+
 // ---- generator ----------------------------------------------------------------------------
 
 fn put() -> BoxedStrategy<Put> {
     let kind = prop_oneof![
         8 => (0u8..6).prop_map(Kind::Narrow),
         3 => (0u8..2).prop_map(Kind::Wide),
-        2 => (0u8..3).prop_map(Kind::Image),
+        2 => (0u8..7).prop_map(Kind::Image),
         1 => (0u8..2).prop_map(Kind::Glyph),
     ];
     (any::<u16>(), any::<u16>(), prop_oneof![3 => Just(0u8), 3 => Just(1u8), 1 => Just(2u8), 1 => Just(3u8)], kind, 0u8..5)
@@ -667,12 +916,28 @@ impl Property for C01 {
                     .prop_map(|(height, width, scramble)| Op::Recreate { height, width, scramble }),
             ]
         };
-        (1..=maxh, 1..=maxw, proptest::collection::vec(op(), 1..maxops))
-            .prop_map(|(height, width, mut ops)| {
-                ops.push(Op::Frame);
-                Case { height, width, ops }
-            })
-            .boxed()
+        let direct = (1..=maxh, 1..=maxw, proptest::collection::vec(op(), 1..maxops)).prop_map(|(height, width, mut ops)| {
+            ops.push(Op::Frame);
+            Case { height, width, ops, render_loop: None }
+        });
+        // the render loop drops frames when more than 32 are pending: sessions long enough to
+        // get there (a stall of 0..60 polls in a session of 1..60 frames), painting little
+        let small = proptest::collection::vec(put(), 0..4);
+        let looped = (
+            1..=maxh.min(5),
+            1..=maxw.min(8),
+            proptest::collection::vec(small, 1..60),
+            proptest::collection::vec(any::<u8>(), 0..3),
+            (0u8..20, 0u8..60),
+            proptest::collection::vec(0u8..4, 0..4),
+        )
+            .prop_map(|(height, width, frames, no_frame, stall, deliver)| Case {
+                height,
+                width,
+                ops: Vec::new(),
+                render_loop: Some(RenderLoop { frames, no_frame, stall, deliver }),
+            });
+        prop_oneof![12 => direct, 1 => looped].boxed()
     }
 
     fn check(&self, case: &Case) -> Outcome {
@@ -684,7 +949,7 @@ impl Property for C01 {
     }
 
     fn rule(&self) -> String {
-        "terminal 1..7 x 1..11 cells (thorough up to 9x40), cell = 4x2 pixels; history of 1-12 ops (thorough 30): Paint (0-9 cells: narrow chars from {' ',a,b,c,d}, wide chars 世/🤩, 3 pool images of 1x1/2x2/1x3 cells reused by Arc, 2 glyphs; 5 pool faces; positions absolute or right-neighbour / same cell / below the previous put, plus runs of equal coloured blanks), Repaint (previous frame's cells again), Frame (delivered + checked), NoFrame, Clear, Dropped (1-2 frames rendered but never delivered, then the mandatory clear()), Recreate (clear(), screen scrambled, possibly resized, new renderer with clear=true). After every delivered frame the reference screen's display must equal (1) the display the surface denotes and (2) the display a brand-new renderer produces for the same surface on a blank screen. non-trivial = >=2 delivered frames, the later differing from the earlier, and one of: wide char in both, image kept/moved/removed, blank run >=5, forced clear on a non-blank screen, dropped frames, re-creation".into()
+        "terminal 1..7 x 1..11 cells (thorough up to 9x40), cell = 4x2 pixels; history of 1-12 ops (thorough 30): Paint (0-9 cells: narrow chars from {' ',a,b,c,d}, wide chars 世/🤩, 7 pool images reused by Arc (1x1/2x2/1x3 cells, plus four equal-sized windows at different offsets into one backing picture), 2 glyphs; 5 pool faces; positions absolute or right-neighbour / same cell / below the previous put, plus runs of equal coloured blanks), Repaint (previous frame's cells again), Frame (delivered + checked), NoFrame, Clear, Dropped (1-2 frames rendered but never delivered, then the mandatory clear()), Recreate (clear(), screen scrambled, possibly resized, new renderer with clear=true). One case in 13 instead drives the library's own render loop (Terminal::run_render) on a terminal whose output queue is scripted: 1-59 handler invocations painting 0-3 cells each (some answering WaitNoFrame), the terminal accepting 0-3 queued frames per poll and nothing at all during a stall of 0-59 polls, so that the loop's frame dropping (more than 32 frames pending: frames_drop + clear()) takes place; every frame that reaches the screen is checked, and the frame of the last invocation must be among them. After every delivered frame the reference screen's display must equal (1) the display the surface denotes and (2) the display a brand-new renderer produces for the same surface on a blank screen. non-trivial = >=2 delivered frames, the later differing from the earlier, and one of: wide char in both, image kept/moved/removed, blank run >=5, forced clear on a non-blank screen, dropped frames, re-creation; render-loop cases: a frame delivered after the loop dropped frames".into()
     }
 
     fn assumptions(&self) -> Vec<String> {
